@@ -50,6 +50,11 @@ func (f *FilterData) SelectorMatch(item any) bool {
 			continue
 		}
 
+		// an item that does not have the selected value can not match
+		if itemF.Kind() != reflect.Ptr || itemF.IsNil() {
+			return false
+		}
+
 		itemValue := itemF.Elem().Interface()
 		// the values may be structs containing slices or pointers
 		if !reflect.DeepEqual(itemValue, value) {
